@@ -146,7 +146,7 @@ claim("C14", "proof",
       "through the verified checker plus the static clauses (unique definitions = freshness of the numbering, phis at block heads, "
       "signals/components unversioned and locals versioned, every version declared, non-phi statements equal to the pre-SSA ones).",
       "Lean kernel + standard axioms; abstraction of the dumps into (target, reads, element-wise update) per statement is driver code; the "
-      "termination of the phi work list is assumed in C14_construction (`= some Pf`) and observed on every instance; correspondence is sampled.",
+      "the phi work list is proved to terminate within n + 2n|V| iterations (C14_worklist_terminates); correspondence is sampled.",
       "Lean 4 proof (checker soundness for all paths; the construction model passes the checker for every CFG and numbering) + rebuilding of real SSA dumps by the model", "5 (C14)")
 
 claim("C07", "proof",
